@@ -30,7 +30,9 @@ async def run_history(cap, rate, events):
             else:
                 out.append(bool(ok))
         async def burst(t):
-            for ip in sorted(rl.buckets.keys()) or ["10.0.0.1"]:
+            # every address that has ever sent a request (taken from the history, not from the limiter's table: an address the
+            # pass has just forgotten is exactly the one whose next request matters)
+            for ip in sorted(set(x[2] for x in eff if x[0] == "r")) or ["10.0.0.1"]:
                 for _ in range(cap + 1):
                     await request(t, ip)
         for e in events:
@@ -109,6 +111,13 @@ def histories(rng, tier):
             if rng.random() < 0.2: ev.append(("c", t))
             else: ev.append(("r", t, rng.choice(IPS + ["192.0.2.7"])))
         cases.append((cap, rate, ev))
+    # a table of many tracked addresses (a clean-up pass that works in batches has await points only beyond its batch size):
+    # N addresses make one request each, stay idle until every bucket has refilled, then one clean-up pass (with the burst
+    # injection at any await point inside it, see run_history) and the burst after it
+    for n_addr, cap in ((2600, 1),) if tier == "quick" else ((2600, 1), (5200, 2), (1100, 3)):
+        ev = [("r", F(0), "10.%d.%d.%d" % (i >> 16, (i >> 8) & 255, i & 255)) for i in range(n_addr)]
+        ev.append(("c", F(4801, 8)))
+        cases.append((cap, F(1, 8), ev))
     return cases, exh
 
 def run(tier, seed):
@@ -117,7 +126,7 @@ def run(tier, seed):
     res = Result()
     cases, exh = histories(rng, tier)
     res.rule = ("all histories of <= %d events over 2 addresses x {request, clean-up pass} x time steps incl. 0, 1/8, 300, 600+1/8 s "
-                "(%d histories; thorough adds all 5-event histories over the steps 0, 1/8, 600+1/8; configurations cap 1..3 x rate 1/8, 1, 1/1024 rotated, cap 1 / rate 1/1024 always), plus random long runs; "
+                "(%d histories; thorough adds all 5-event histories over the steps 0, 1/8, 600+1/8; configurations cap 1..3 x rate 1/8, 1, 1/1024 rotated, cap 1 / rate 1/1024 always), plus random long runs, plus tables of 2600 (thorough: up to 5200) tracked addresses with one clean-up pass; "
                 "non-trivial = distinct history with at least one refusal and one admission") % (4, exh)
     res.exhaustive = True
     async def go():
@@ -132,13 +141,22 @@ def run(tier, seed):
         log = [[q(e[1]), e[2], bool(d is True)] for e, d in zip(reqs, dec_)]
         if len(log) <= 14:
             mon.append((len(mon), ("C10.ok", enc([q(cap), q(rate), log])), (cap, rate, ev, dec_)))
+        elif len(set(l[1] for l in log)) > 50:
+            # many addresses: the bound is per address - judge the first, the middle and the last tracked address on their own logs
+            ips_ = [l[1] for l in log[:len(set(l[1] for l in log))]]
+            for ip in (ips_[0], ips_[len(ips_) // 2], ips_[-1]):
+                sub = [l for l in log if l[1] == ip]
+                sdec = [d for e, d in zip(reqs, dec_) if e[2] == ip]
+                if len(sub) <= 14:
+                    mon.append((len(mon), ("C10.ok", enc([q(cap), q(rate), sub])),
+                                (cap, rate, [("r", l[0][0] / l[0][1] if l[0][1] != 1 else l[0][0], l[1]) for l in sub] + [("note", "one of %d addresses; clean-up pass at t=600.125 with requests at its await points" % len(ips_), "")], sdec)))
         res.evaluations += 1
         if any(d is True for d in dec_) and any(d is False for d in dec_):
             res.nontriv((cap, rate, ev))
         res.count("len:%d" % min(len(ev), 10))
         res.count("refusals:%s" % ("0" if all(d is True for d in dec_) else ">0"))
     res.sample({"cap": cases[100][0], "rate": str(cases[100][1]), "events": [[str(x) for x in e] for e in cases[100][2]], "decisions": impl[100][0]})
-    res.sample({"cap": cases[-1][0], "rate": str(cases[-1][1]), "events": [[str(x) for x in e] for e in cases[-1][2]], "decisions": impl[-1][0]})
+    res.sample({"cap": cases[-5][0], "rate": str(cases[-5][1]), "events": [[str(x) for x in e] for e in cases[-5][2]], "decisions": impl[-5][0]})
     out = run_model_parallel(mcases)
     compare(res, "bucket", [c[1] for c in mcases], iobs, out, describe=lambda a: pretty(dec(a)))
     # "refused only when the allowance is exhausted": per address the decisions are those of one ideal bucket
